@@ -749,6 +749,11 @@ def replay(prop, path):
     b.lean()
     res = vlib.run_l1(prop + '-replay', fam, int(seed), 1, start=int(idx))
     bad = [m for m in res['mismatches'] if vlib.relevant(m, PROPS[prop]['labels'])]
+    sh = (d.get('shrunk') or {}).get('case')
+    if sh and '@' in sh:
+        # the minimal case as well (identified by its path of reductions)
+        r2 = vlib.run_l1_shrink_step(prop + '-replay', fam, seed, idx, sh.split('@')[1], with_candidates=False) or {}
+        bad += [m for m in r2.values() if vlib.relevant(m, PROPS[prop]['labels'])]
     if bad:
         print(json.dumps(bad, indent=1)[:6000])
         print(f'VIOLATION property={prop} replay={path}')
